@@ -11,8 +11,7 @@
     * what the decoders do with an arbitrary tree (`geomOfDoc`, `featureOfDoc`, `fcOfDoc`):
       struct-field matching (case folding), `json.Unmarshal` into `[2]float64` / nested slices
       (null handling, short / long arrays), "saved" type errors vs. hard errors of nested
-      Unmarshalers, the type switch, `g.Geometry()` on the decoded members (nil dereference →
-      `panic`), `featureUnmarshalFinish`.
+      Unmarshalers, the type switch, `g.Geometry()` on the decoded members (a nil member is rejected), `featureUnmarshalFinish`.
   Coordinates are float64 bit patterns.  Both codecs share the definitions; `Codec` selects the
   documented differences (bson `omitempty` drops empty slices, bson rejects over-long arrays and
   aborts on the first type error, json saves type errors and goes on).
@@ -349,8 +348,9 @@ structure DG where
   bare : Bool
 deriving Repr, Inhabited
 
-/-- What `(*Geometry)(nil).Geometry()` does: `g.Coordinates` on a nil pointer. -/
-def nilMember {α : Type} : R α := .panic "nil pointer dereference: (*Geometry)(nil).Geometry()"
+/-- A `null` element of "geometries" is a nil `*Geometry`; the `case "GeometryCollection"` arm
+    rejects it (`return ErrInvalidGeometry`) before `Geometry()` would dereference it. -/
+def nilMember {α : Type} : R α := .err .invalid
 
 /-- fields of `jsonGeometry` / `bsonGeometry` while the document's members are being decoded -/
 structure GSt where
@@ -360,7 +360,7 @@ structure GSt where
   saved : Bool := false                        -- encoding/json: a saved UnmarshalTypeError
 deriving Inhabited
 
-/-- `Geometry()` over decoded members: a nil pointer member is dereferenced. -/
+/-- `Geometry()` over decoded members (a nil pointer member has been rejected before). -/
 def membersGeometry : List (Option DG) → R (List G)
   | [] => .ok []
   | none :: _ => nilMember
@@ -370,7 +370,7 @@ def membersGeometry : List (Option DG) → R (List G)
     | .err e => .err e
     | .panic s => .panic s
 
-/-- `Geometry()` is evaluated left to right: the FIRST nil member is what panics. -/
+/-- some member is a nil pointer -/
 def hasNilMember : List (Option DG) → Bool
   | [] => false
   | none :: _ => true
@@ -593,13 +593,13 @@ def featureFinish (st : FSt) : R Feature :=
 /-- `(*Feature).UnmarshalJSON(data)` / `UnmarshalBSON`.  `rawNull` says that `data` is exactly the
     four bytes `null` (the `bytes.Equal` short cut).  Otherwise the document is decoded into a
     `**featureDoc`: a `null` that is not byte-equal to "null" (surrounding white space) sets that
-    pointer to nil and `featureUnmarshalFinish` dereferences it. -/
+    pointer to nil, which is treated like the exact `null`. -/
 def featureOfDoc (c : Codec) (rawNull : Bool) (j : Json) : R Feature :=
   if rawNull then .ok { typ := "" } else
   match j with
   | .null =>
     (match c with
-     | .json => .panic "nil pointer dereference: doc.Type on a nil *featureDoc"
+     | .json => .ok { typ := "" }        -- `if doc == nil { *f = Feature{}; return nil }`
      | .bson => .err .json)
   | .obj ms =>
     (match decodeFMembers c ms {} with
